@@ -421,12 +421,18 @@ func (t *tlcreate) do(cs *connState, uid UID) (*rlcreate, error) {
 			mode:      ModeRegular,
 			pathNode:  ref.pathNode.pathNodeFor(t.Name),
 		}
+		// Hold a reference from the moment the new fidRef is visible in
+		// the path tree: a rename or unlink of the new name that runs
+		// before InsertFID below would otherwise take it for destroyed
+		// and drop it from the tree without telling it.
+		newRef.IncRef()
 		ref.pathNode.addChild(newRef, t.Name)
 		ref.IncRef() // Acquire parent reference.
 		return nil
 	}); err != nil {
 		return nil, err
 	}
+	defer newRef.DecRef()
 
 	// Replace the fid reference.
 	cs.InsertFID(t.fid, newRef)
